@@ -13,7 +13,7 @@ from ..oracles import energy
 
 
 def plan(tier):
-    n = 240 if tier == 'quick' else 4000
+    n = 240 if tier == 'quick' else 1600
     return dict(n_cases=n, shards=16, min_nontrivial=n // 3,
                 min_tags={'obj:assembly': n // 6, 'obj:bay_split': n // 6, 'obj:bay_stiff': n // 6, 'stiff:blade1d': n // 30, 'stiff:blade2d': n // 30,
                           'stiff:t2d': n // 30, 'nstiff>=2': n // 20},
